@@ -314,6 +314,15 @@ class PyDict(Val):
         return 'PyDict(%r)' % (self.items,)
 
 
+class RepVal(Val):
+    """[x] * n : python-side list repetition with a symbolic count"""
+    __slots__ = ('elem', 'count')
+
+    def __init__(self, elem, count):
+        Val.__init__(self, TPy)
+        self.elem, self.count = elem, count
+
+
 NONE = Val(TNone, None, None)
 
 
@@ -413,6 +422,10 @@ def coerce(v, ty):
                    int(v.py) if v.has_py() else NOPY)
     if ty == TBool and v.ty == TInt and v.has_py() and v.py in (0, 1):
         return Val(TBool, z3.BoolVal(bool(v.py)), bool(v.py))
+    if isinstance(v, RepVal) and isinstance(ty, TList):
+        e = coerce(v.elem, ty.elem)
+        n = v.count
+        return Val(ty, ty.mk(z3.K(z3.IntSort(), e.term), z3.If(n >= 0, n, 0)))
     if isinstance(v, PyTuple):
         if isinstance(ty, TList):
             arr = z3.K(z3.IntSort(), _default(ty.elem))
